@@ -46,6 +46,9 @@ struct Scenario {
     /// this many block fetches fail once before they are served (transient failures)
     #[serde(default)]
     fails: usize,
+    /// the syncing node is a lite (spv) client: it asks for a ghost chain and fetches lite blocks
+    #[serde(default)]
+    lite: bool,
 }
 fn dg() -> u64 {
     200
@@ -75,7 +78,8 @@ fn extend(rt: &tokio::runtime::Runtime, lw: &LedgerWorld, builder: &mut Node, cr
         id: format!("{}{}", tag, gi),
         signer: "k1".into(),
         ins: vec![format!("g{}", gi)],
-        outs: vec![("k2".into(), 0)],
+        // every third block pays the key of node A ("c"): a lite client on that key has something to fetch
+        outs: vec![(if gi % 3 == 0 { "c".to_string() } else { "k2".to_string() }, 0)],
         path: vec![],
         edit: None,
         data: Some(format!("{}-{}", tag, gi)),
@@ -141,7 +145,7 @@ fn build(rt: &tokio::runtime::Runtime, s: &Scenario) -> Chains {
 struct Pending {
     /// (destination node 0/1, event description, the event)
     wire: VecDeque<(usize, String, NetworkEvent)>,
-    fetches: VecDeque<(usize, SaitoHash, u64, u64)>, // (requesting node, hash, id, peer index at requester)
+    fetches: VecDeque<(usize, SaitoHash, u64, u64, bool)>, // (requesting node, hash, id, peer index at requester, lite block wanted)
 }
 
 const A: usize = 0;
@@ -165,8 +169,8 @@ fn collect(nodes: &mut [FullNode; 2], pend: &mut Pending, log: &mut Vec<Value>) 
                     let tag = buf.first().copied().unwrap_or(0);
                     pend.wire.push_back((other, format!("msg{}", tag), NetworkEvent::IncomingNetworkMessage { peer_index: IDX[other], buffer: buf }));
                 }
-                IoOp::Fetch { hash, peer, id, .. } if peer == IDX[x] => {
-                    pend.fetches.push_back((x, hash, id, peer));
+                IoOp::Fetch { hash, peer, id, url } if peer == IDX[x] => {
+                    pend.fetches.push_back((x, hash, id, peer, url.contains("/lite-block/")));
                 }
                 IoOp::Connect { peer, .. } => {
                     // the outgoing connection of A is established: both sides learn about it
@@ -189,6 +193,7 @@ fn tip(rt: &tokio::runtime::Runtime, f: &FullNode) -> (u64, SaitoHash) {
 fn run(rt: &tokio::runtime::Runtime, scn: &Scenario, k: usize, trace: &mut Trace, wd: &Watchdog) {
     let ch = build(rt, scn);
     let mut cfg_a = ch.lw.cfg();
+    cfg_a.spv = scn.lite;
     cfg_a.peers.push(PeerConfig { host: "nodeb".into(), port: 12101, protocol: "http".into(), synctype: "full".into() });
     if let Some(s) = cfg_a.server.as_mut() {
         s.block_fetch_batch_size = scn.batch;
@@ -265,6 +270,7 @@ fn run(rt: &tokio::runtime::Runtime, scn: &Scenario, k: usize, trace: &mut Trace
     let mut res = "ok".to_string();
     let mut fetched_ids: Vec<u64> = vec![];
     let mut fails_left = scn.fails;
+    let mut lite_fetches = 0usize;
     wd.pet(&format!("scn {} init", k));
     let r0 = guarded(|| {
         rt.block_on(async {
@@ -340,12 +346,27 @@ fn run(rt: &tokio::runtime::Runtime, scn: &Scenario, k: usize, trace: &mut Trace
                             "lifo" => pend.fetches.len() - 1,
                             _ => r.gen_range(0..pend.fetches.len()),
                         };
-                        let (req, hash, id, peer) = pend.fetches.remove(i).unwrap();
+                        let (req, hash, id, peer, want_lite) = pend.fetches.remove(i).unwrap();
                         // the serving node answers from its block files, as its HTTP endpoint does
                         let buf = {
                             let suffix = format!("-{}.sai", hex::encode(hash));
                             nodes[1 - req].node.io.files().iter().find(|(name, _)| name.ends_with(&suffix)).map(|(_, v)| v.clone())
                         };
+                        // a lite client is served the projection of the block onto its key
+                        let buf = match (want_lite, buf) {
+                            (true, Some(bytes)) => match Block::deserialize_from_net(&bytes) {
+                                Ok(mut full) => {
+                                    let _ = full.generate();
+                                    let keylist = vec![nodes[req].node.key.public];
+                                    Some(full.generate_lite_block(keylist).serialize_for_net(saito_core::core::consensus::block::BlockType::Full))
+                                }
+                                Err(_) => None,
+                            },
+                            (_, b) => b,
+                        };
+                        if want_lite {
+                            lite_fetches += 1;
+                        }
                         fetched_ids.push(id);
                         let buf = if fails_left > 0 && r.gen_bool(0.5) {
                             fails_left -= 1;
@@ -375,10 +396,45 @@ fn run(rt: &tokio::runtime::Runtime, scn: &Scenario, k: usize, trace: &mut Trace
     let (ia, xa) = tip(rt, &nodes[A]);
     let (ib, xb) = tip(rt, &nodes[B]);
     let stored_a = rt.block_on(async { nodes[A].node.blockchain.read().await.blocks.len() });
+    // lite client: which blocks of the peer's chain touch its key, and what it holds for them
+    let (mut touching, mut held_full, mut wallet_a, mut ledger_a) = (vec![], vec![], 0u64, 0u64);
+    if scn.lite {
+        rt.block_on(async {
+            let me = nodes[A].node.key.public;
+            let bca = nodes[A].node.blockchain.read().await;
+            let bcb = nodes[B].node.blockchain.read().await;
+            for blk in ch.prefix.iter().chain(ch.b.iter()) {
+                let touches = blk.transactions.iter().any(|t| t.from.iter().any(|s| s.public_key == me) || t.to.iter().any(|s| s.public_key == me));
+                if touches {
+                    touching.push(blk.id);
+                    if let Some(mine) = bca.blocks.get(&blk.hash) {
+                        let has = mine.transactions.iter().any(|t| {
+                            t.transaction_type != saito_core::core::consensus::transaction::TransactionType::SPV
+                                && (t.from.iter().any(|s| s.public_key == me) || t.to.iter().any(|s| s.public_key == me))
+                        });
+                        if has || mine.block_type == saito_core::core::consensus::block::BlockType::Pruned {
+                            held_full.push(blk.id);
+                        }
+                    }
+                }
+            }
+            wallet_a = nodes[A].node.wallet.read().await.get_available_balance();
+            for (k, v) in bcb.utxoset.iter() {
+                if *v {
+                    if let Ok(s) = saito_core::core::consensus::slip::Slip::parse_slip_from_utxokey(k) {
+                        if s.public_key == me {
+                            ledger_a += s.amount;
+                        }
+                    }
+                }
+            }
+        });
+    }
     let ann: Vec<u64> = announced.iter().filter(|v| v["from"] == 1).filter_map(|v| v["announce"].as_u64()).collect();
     trace.emit(json!({"ev": "End", "scn": k, "i": 1, "p": scn.p, "la": scn.la, "lb": scn.lb, "res": res, "steps": steps, "ticks": ticks,
         "ida": ia, "idb": ib, "same_tip": xa == xb, "b_on_own_tip": xb == want_b, "a_on_b_tip": xa == want_b,
-        "announced_by_b": ann, "fetched": fetched_ids, "stored_a": stored_a, "budget_hit": steps >= 20_000}));
+        "announced_by_b": ann, "fetched": fetched_ids, "stored_a": stored_a, "budget_hit": steps >= 20_000,
+        "lite": scn.lite, "lite_fetches": lite_fetches, "touching": touching, "held": held_full, "wallet_a": wallet_a.to_string(), "ledger_a": ledger_a.to_string()}));
 }
 
 fn main() {
